@@ -1,19 +1,23 @@
-"""C07 - BER writer and reader agree; canonical constants (tables and constants, NOT the integer arithmetic)."""
+"""C07 - BER writer and reader agree; encoding is canonical."""
 from facts import walk, callee_of, call_args, loc
-import hirq, anchors, absx
+import hirq, anchors, absx, thresholds
 
-EXPLANATION = ("Decides the table/constant part of the property, stated plainly: B1 identifier octet - the writer composes "
+EXPLANATION = ("B1 identifier octet - the writer composes "
                "class<<6 | structure<<5 | id (ids <= 30, else 0x1F) and the reader takes 2, 1, 5 bits in that order, 6 = 8-2 and 5 = 8-2-1; "
                "TagClass / TagStructure discriminants equal their from_u8 tables (evaluated for all 256 inputs); B2 length - the writer uses "
                "the short form iff length < 128 and the reader iff the first octet < 128 (same operator and constant on both sides), the "
                "long-form marker is count | 0x80 against len - 128, only definite forms are emitted; B3 BOOLEAN emits {0xFF} / {0x00}, "
                "NULL emits empty content, every into_structure passes id / class through and keeps the children in order; B4 the TLV "
                "parser returns the slice after the announced length as remainder in both the primitive and the constructed arm, and the "
-               "encoder writes type, then the length of exactly the content it writes next. NOT decided: INTEGER / ENUMERATED content "
-               "octets (i_e_into_structure), minimality of long-form length octets, round-trip equality - arithmetic over 2^64 values, "
-               "outside structural reach (a defect there, -129 encoding as 7f, was seen by reading and is not detected by this check).")
+               "encoder writes type, then the length of exactly the content it writes next; B2m/B5 the two arithmetic functions - "
+               "write_length and the INTEGER/ENUMERATED content encoder - are functions of one integer whose every branch condition is a "
+               "comparison of the (possibly complemented) value shifted right by a constant with a constant (checked); such conditions "
+               "can change only at finitely many change points, so the path taken and the octets emitted are decided exactly by "
+               "evaluating the enumerated paths' conditions and outputs at every change point and its neighbours (lengths over 0..2^64-1, "
+               "integers over all of i64) against the minimal definite length form and the shortest two's-complement form. Not decided: "
+               "round-trip equality of whole trees taken whole.")
 TRUSTED = ['nom bits/bytes primitives', 'to_be_bytes']
-UNDECIDED = ['INTEGER/ENUMERATED content octets (arithmetic over i64)', 'minimal long-form length octets (arithmetic)', 'round-trip equality taken whole']
+UNDECIDED = ['round-trip equality of arbitrary trees taken whole (its necessary conditions B1-B5 are decided)']
 ASSUMPTIONS = []
 
 def run(ctx):
@@ -120,6 +124,94 @@ def run(ctx):
         pu = [e for e in o.st.ev if e[0] == 'call' and e[1] == 'lber::parse::parse_uint']
         okr = len(tk) == 1 and strip_site(tk[0][2][0]) == ('bin', 'Add', first, ('lit', -128)) and len(pu) == 1
     ctx.add('B2.reader-long-form', 'len - 128 octets', loc(RL.root), okr, 'reader long form must take (first octet - 128) octets and read them as an unsigned integer')
+
+    # ------------------------------------------------------------------ B2m minimal long form (threshold partition)
+    def len8(I, cal, args, node, st):
+        if cal.endswith('::len') and args and args[0][0] == 'call' and args[0][1].endswith('::to_be_bytes'):
+            return [absx.Out('val', ('lit', 8), st)]
+        return None
+    LEN = ('param', 'length')
+    louts = [o for o in absx.Interp(f, WL, unroll=9, summaries=[len8]).run() if o.kind == 'val']
+    atoms = [a for o in louts for a, t in o.st.pc]
+    badform = [absx.fmt(a) for a in atoms if not thresholds.atom_ok(a, LEN)]
+    ctx.add('B2m.conditions-are-thresholds', 'write_length', loc(WL.root), not badform, 'branch conditions that are not comparisons of (length >> k) with a constant: %s' % badform[:3])
+    def ref_len_octets(n):
+        if n < 128:
+            return [n]
+        b = n.to_bytes((n.bit_length() + 7) // 8, 'big')
+        return [0x80 | len(b)] + list(b)
+    pts = thresholds.change_points(atoms, LEN, 0, 2 ** 64 - 1, extra=[128, 127, 255, 256, 65535, 65536, 2 ** 24 - 1, 2 ** 24, 2 ** 32 - 1, 2 ** 32, 0xFF00, 0xFF0000])
+    wrong = []
+    for v in pts:
+        hit = [o for o in louts if thresholds.path_holds(o, LEN, v) is True]
+        if len(hit) != 1:
+            wrong.append((v, 'paths=%d' % len(hit))); continue
+        o = hit[0]
+        ws = [e for e in o.st.ev if e[0] == 'call' and (e[1].endswith('::write') or e[1].endswith('::write_all'))]
+        got = []
+        okshape = True
+        for e in ws:
+            a = thresholds.subst(e[2][1], LEN, v)
+            if a[0] == 'array' and all(x[0] == 'lit' for x in a[1]):
+                got += [x[1] & 0xff for x in a[1]]
+            elif a[0] == 'index' and a[1][0] == 'call' and a[1][1].endswith('::to_be_bytes') and a[1][2][0] == ('lit', v) and a[2][0] == 'struct' and a[2][1].endswith('RangeFrom'):
+                start = dict(a[2][2]).get('start')
+                if start and start[0] == 'lit':
+                    got += list(v.to_bytes(8, 'big'))[start[1]:]
+                else:
+                    okshape = False
+            else:
+                okshape = False
+        if not okshape or got != ref_len_octets(v):
+            wrong.append((v, [hex(x) for x in got], [hex(x) for x in ref_len_octets(v)]))
+    ctx.add('B2m.length-octets-minimal', 'write_length', loc(WL.root), not wrong,
+            'decided at all %d change points of the branch conditions (lengths 0..2^64-1): the emitted length octets differ from the minimal definite form at %s' % (len(pts), wrong[:4]))
+
+    # ------------------------------------------------------------------ B5 INTEGER / ENUMERATED content octets (threshold partition)
+    IE = hirq.Body(f, f.body('lber::structures::integer::i_e_into_structure'))
+    ctx.analysed['bodies'].add(IE.path)
+    INNER = ('param', 'inner')
+    iouts = [o for o in absx.Interp(f, IE, unroll=10, summaries=[len8]).run() if o.kind == 'val']
+    atoms = [a for o in iouts for a, t in o.st.pc]
+    badform = [absx.fmt(a) for a in atoms if not thresholds.atom_ok(a, INNER)]
+    ctx.add('B5.conditions-are-thresholds', 'i_e_into_structure', loc(IE.root), not badform, 'branch conditions that are not comparisons of (+-inner >> k) with a constant: %s' % badform[:3])
+    LO, HI = -2 ** 63, 2 ** 63 - 1
+    extra = []
+    for k in range(1, 9):
+        for c in (2 ** (8 * k - 1), 2 ** (8 * k)):
+            extra += [c - 1, c, c + 1, -c - 1, -c, -c + 1]
+    pts = thresholds.change_points(atoms, INNER, LO, HI, extra=extra)
+    def ref_int_octets(v):
+        n = 1
+        while not (-(1 << (8 * n - 1)) <= v < (1 << (8 * n - 1))):
+            n += 1
+        return list(v.to_bytes(n, 'big', signed=True))
+    wrong = []
+    for v in pts:
+        hit = [o for o in iouts if thresholds.path_holds(o, INNER, v) is True]
+        if len(hit) != 1:
+            wrong.append((v, 'paths=%d' % len(hit))); continue
+        o = hit[0]
+        if v == LO and any(absx.leaves(a, lambda x: x[0] == 'neg') for a, t in o.st.pc):
+            wrong.append((v, 'negation overflows')); continue
+        got = []
+        okshape = True
+        for e in o.st.ev:
+            if e[0] == 'call' and e[1].endswith('Vec::<T, A>::push'):
+                x = thresholds.subst(e[2][1], INNER, v)
+                got.append(x[1] & 0xff if x[0] == 'lit' else None)
+            if e[0] == 'call' and e[1].endswith('::extend_from_slice'):
+                a = thresholds.subst(e[2][1], INNER, v)
+                if a[0] == 'index' and a[1][0] == 'call' and a[1][1].endswith('::to_be_bytes') and a[1][2][0] == ('lit', v) and a[2][0] == 'struct' and a[2][1].endswith('RangeFrom') \
+                        and dict(a[2][2]).get('start', ('unk',))[0] == 'lit':
+                    got += list(v.to_bytes(8, 'big', signed=True))[dict(a[2][2])['start'][1]:]
+                else:
+                    okshape = False
+        pl = dict(o.val[2]).get('payload') if o.val[0] == 'struct' else None
+        if not okshape or pl is None or pl[0] != 'ctor' or pl[1] != 'PL::P' or got != ref_int_octets(v):
+            wrong.append((v, [hex(x) if x is not None else '?' for x in got], [hex(x) for x in ref_int_octets(v)]))
+    ctx.add('B5.integer-octets-shortest-twos-complement', 'i_e_into_structure', loc(IE.root), not wrong,
+            'decided at all %d change points of the branch conditions over i64: content octets differ from the shortest two\'s-complement form at (value, emitted, expected): %s' % (len(pts), wrong[:5]))
 
     # ------------------------------------------------------------------ B3 constants and pass-through
     T = 'lber::structures::ASNTag>::into_structure'
